@@ -239,7 +239,7 @@ func init() {
 			"(2) valid jd / JSON Patch / JSON Merge Patch / JSON / YAML texts damaged at line and byte level, then read, applied and rendered in every format; (3) hostile YAML (.inf, .nan, non-string keys, anchors, merge keys, multi-document, huge integers); " +
 			"(4) the same material through both binaries (-p, -t, -yaml). non-trivial = the reader accepted the text (so Patch/Render ran) ; distinct = distinct texts",
 		Floors: map[string]int{"patch_calls": 500000, "patch_error_returned": 100000, "patch_result_returned": 20000, "read_accepted": 20000, "read_rejected": 10000,
-			"cli_runs": 1000, "patch_sequences_read": 5000, "cli_status_2": 300, "yaml_read_ok": 10, "valid_diff_on_malformed_document": 40},
+			"cli_runs": 1000, "patch_sequences_read": 5000, "cli_status_2": 300, "yaml_read_ok": 10, "valid_diff_on_malformed_document": 40, "non_utf8_inputs": 10},
 		Assumptions: []string{
 			"a hang is reported as inconclusive by the driver's watchdog, never as a violation by elapsed time",
 			"'one-line message' is decided as: exit status 2, non-empty stderr, and no Go crash markers (panic:, fatal error:, goroutine N [running])",
@@ -475,6 +475,17 @@ func init() {
 		CLI:  true,
 		N:    qt(900, 20000),
 		Run: func(c *mon.Ctx, i int) {
+			if i%23 == 22 {
+				// bytes that are not UTF-8 text (UTF-16 with a byte order mark, odd lengths, NUL) as every kind of input
+				blob := gen.Pick(c.R, []string{"\xff\xfe{\x00}", "\xff\xfe{\x00}\x00", "\xfe\xff\x00{\x00}", "\x00", "\xff\xfe", "\xff", "{\"a\":\x00}", "\xef\xbb\xbf\xef\xbb\xbf{}"})
+				c.Input("blob", fmt.Sprintf("%q", blob))
+				c.Feature("non_utf8_inputs")
+				c.Nontrivial("blob" + blob)
+				c13CLI(c, []string{"a.json", "blob.bin"}, "", map[string]string{"a.json": `{"a":1}`, "blob.bin": blob}, false)
+				c13CLI(c, []string{"-p", "blob.bin", "a.json"}, "", map[string]string{"a.json": `{"a":1}`, "blob.bin": blob}, false)
+				c13CLI(c, []string{"-t", "yaml2json"}, blob, nil, false)
+				return
+			}
 			if i%9 == 8 {
 				// a well-formed diff (native, JSON Patch, merge patch) against a damaged or empty document
 				a, b := gen.Pair(c.R, gen.PTiny)
